@@ -10,7 +10,7 @@ namespace Lang
     end only when it is declared `-> None` -/
 def FuncOK (P : Prog) (tm : Recs) (self : Option Nat) (fd : FuncDef) : Prop :=
   ∃ r, tcS tcFuel { P := P, decl := selfTys self ++ fd.params ++ fd.locals, ret := fd.ret, self := self } (some []) fd.body = .ok r
-    ∧ (∀ x ∈ r.2, x ∈ tm) ∧ (r.1.isSome = true → fd.ret = [.none])
+    ∧ (∀ x ∈ r.recs, x ∈ tm) ∧ (r.out.isSome = true → fd.ret = [.none]) ∧ r.brks = [] ∧ r.conts = []
 
 theorem FuncOK.mono {P : Prog} {tm tm' : Recs} {self : Option Nat} {fd : FuncDef} (h : FuncOK P tm self fd)
     (hs : ∀ x ∈ tm, x ∈ tm') : FuncOK P tm' self fd := by
@@ -20,16 +20,17 @@ theorem FuncOK.mono {P : Prog} {tm tm' : Recs} {self : Option Nat} {fd : FuncDef
 theorem tcFunc_ok {P : Prog} {self : Option Nat} {fd : FuncDef} {recs : Recs} (h : tcFunc P self fd = .ok recs) :
     FuncOK P recs self fd := by
   unfold tcFunc at h
-  simp only [bind_ok] at h
-  obtain ⟨r, hr, h2⟩ := h
-  refine ⟨r, hr, ?_, ?_⟩
-  · cases h1 : r.1 with
+  simp only [bind_ok, req_ok] at h
+  obtain ⟨r, hr, _, hbc, h2⟩ := h
+  simp only [Bool.and_eq_true, List.isEmpty_iff] at hbc
+  refine ⟨r, hr, ?_, ?_, hbc.1, hbc.2⟩
+  · cases h1 : r.out with
     | none => rw [h1] at h2; simp only [pure_ok] at h2; subst h2; exact fun x hx => hx
     | some _ =>
       rw [h1] at h2; simp only [bind_ok, req_ok, pure_ok] at h2
       obtain ⟨_, _, h3⟩ := h2; subst h3; exact fun x hx => hx
   · intro hs
-    cases h1 : r.1 with
+    cases h1 : r.out with
     | none => rw [h1] at hs; simp at hs
     | some _ =>
       rw [h1] at h2; simp only [bind_ok, req_ok, pure_ok] at h2
